@@ -722,6 +722,8 @@ type ProbeReport struct {
 	Events1  int64  `json:"events1"`
 	Events2  int64  `json:"events2"`
 	WaitedMs int64  `json:"waitedMs"`
+	CutShort bool   `json:"cutShortByHeapLimit,omitempty"` // the watchdog stopped early: heap > 2 GB
+	HeapMB   int64  `json:"heapMB,omitempty"`
 	Stack    string `json:"stack,omitempty"`
 }
 
@@ -765,8 +767,7 @@ func probeMain(path string) {
 		d.err = callEntry(&in)
 	}()
 	var rep ProbeReport
-	select {
-	case d := <-done:
+	finish := func(d parseDone) {
 		rep.Returned = true
 		switch {
 		case d.pan != nil:
@@ -776,10 +777,37 @@ func probeMain(path string) {
 		default:
 			rep.Outcome = "tree"
 		}
-	case <-time.After(wait):
+	}
+	// the 10 s watchdog; it is cut short only when the heap of this process
+	// passes 2 GB (a spinning loop that also allocates would otherwise take
+	// the machine down): no input below 4 KB needs that much
+	deadline := time.After(wait)
+	tick := time.NewTicker(100 * time.Millisecond)
+	defer tick.Stop()
+	expired := false
+	for !expired && !rep.Returned {
+		select {
+		case d := <-done:
+			finish(d)
+		case <-deadline:
+			expired = true
+		case <-tick.C:
+			var ms runtime.MemStats
+			runtime.ReadMemStats(&ms)
+			if ms.HeapAlloc > 2<<30 {
+				rep.CutShort, rep.HeapMB = true, int64(ms.HeapAlloc>>20)
+				expired = true
+			}
+		}
+	}
+	if !rep.Returned {
 		k1, f1, st := classifyStacks()
 		rep.Events1 = atomic.LoadInt64(&events)
-		time.Sleep(time.Second)
+		if rep.CutShort {
+			time.Sleep(200 * time.Millisecond)
+		} else {
+			time.Sleep(time.Second)
+		}
 		select {
 		case <-done:
 			rep.Returned = true
